@@ -268,27 +268,21 @@ class Documentable:
         # invariants assumed by various bits of pydoctor
         # and that are of course not written down anywhere
         # :/
-        self._handle_reparenting_pre()
+        # The registry keys of the whole subtree must follow, including the
+        # older definitions superseded by duplicates (not in 'contents' anymore).
+        subtree = self.system._subtree(self)
+        for o in subtree:
+            del self.system.allobjects[o.fullName()]
         old_parent = self.parent
         assert isinstance(old_parent, CanContainImportsDocumentable)
         old_name = self.name
         self.parent = self.parentMod = new_parent
         self.name = new_name
-        self._handle_reparenting_post()
         del old_parent.contents[old_name]
         old_parent._localNameToFullName_map[old_name] = self.fullName()
         new_parent.contents[new_name] = self
-        self._handle_reparenting_post()
-
-    def _handle_reparenting_pre(self) -> None:
-        del self.system.allobjects[self.fullName()]
-        for o in self.contents.values():
-            o._handle_reparenting_pre()
-
-    def _handle_reparenting_post(self) -> None:
-        self.system.allobjects[self.fullName()] = self
-        for o in self.contents.values():
-            o._handle_reparenting_post()
+        for o in subtree:
+            self.system.allobjects[o.fullName()] = o
     
     def _localNameToFullName(self, name: str) -> str:
         raise NotImplementedError(self._localNameToFullName)
@@ -1372,11 +1366,19 @@ class System:
                 self.analyzeModule(path, module_name, package)
             break
     
+    def _subtree(self, o: Documentable) -> List[Documentable]:
+        """
+        All registered objects at or below C{o}, including the older definitions 
+        superseded by duplicates, which are not in L{Documentable.contents} anymore.
+        """
+        fullName = o.fullName()
+        prefix = fullName + '.'
+        return [ob for name, ob in self.allobjects.items() 
+                if name == fullName or name.startswith(prefix)]
+
     def _remove(self, o: Documentable) -> None:
-        del self.allobjects[o.fullName()]
-        oc = list(o.contents.values())
-        for c in oc:
-            self._remove(c)
+        for ob in self._subtree(o):
+            del self.allobjects[ob.fullName()]
 
     def handleDuplicate(self, obj: Documentable) -> None:
         """
@@ -1399,13 +1401,11 @@ class System:
             i += 1
         prev = self.allobjects[fullName]
         obj.report(f"duplicate {str(prev)}", thresh=1)
+        subtree = self._subtree(prev)
         self._remove(prev)
         prev.name = obj.name + ' ' + str(i)
-        def readd(o: Documentable) -> None:
+        for o in subtree:
             self.allobjects[o.fullName()] = o
-            for c in o.contents.values():
-                readd(c)
-        readd(prev)
         self.allobjects[fullName] = obj
 
 
